@@ -439,6 +439,11 @@ def run_pipeline(repo="/repo", workdir=None, keep=False, seed=0, extra_verus=(),
                     scan["code_external_body"].append(n)
                 else:
                     scan["forbidden"].append({"line": n, "text": l.strip()[:200], "section": sec})
+        # the lent-closure axiom equates the specifications of two closure values of one type: it is sound for the value of
+        # `eq` before / after it is lent to hashbrown's `find`, and must not be invoked anywhere else
+        lent_calls = [n for n, l in enumerate(lines, 1) if "axiom_lent_closure_unchanged(" in l.split("//")[0] and section_of(sections, n) != "model"]
+        if len(lent_calls) > 1:
+            scan["forbidden"].append({"line": lent_calls[1], "text": "axiom_lent_closure_unchanged invoked more than once", "section": "code"})
         ext_expected = len(meta["external"])
         if len(scan["code_external_body"]) != ext_expected or scan["forbidden"]:
             res["undecided"] = "assume/admit/external_body scan: unexpected trusted item(s): %s" % json.dumps(scan["forbidden"])[:400]
